@@ -39,6 +39,11 @@ WellFormed(e) ==
     /\ DOMAIN e.gens = Gens
     /\ \A g \in Gens : e.gens[g] \in Nat
 
+\* binding keys: the global stream and the generator objects are separate namespaces -- that a generator created
+\* from seed s and the global stream after numpy.random.seed(s) are in the same state is a fact about one particular
+\* kind of generator (legacy RandomState), not an obligation of C16 (it is false for numpy.random.Generator objects)
+GK(st) == <<"glob", st>>
+NK(st) == <<"gen", st>>
 Bound(st)       == \E p \in bind : p[1] = st
 DigOf(st)       == (CHOOSE p \in bind : p[1] = st)[2]
 Agrees(st, d)   == \A p \in bind : p[1] = st => p[2] = d      \* d is consistent with what was seen for st
@@ -57,9 +62,9 @@ OpOK(e) == CASE e.ev = "Perturb"  -> TRUE
              [] e.ev \in ObjOps   -> e.e \in ObjEntries /\ e.o \in Objs
              [] OTHER -> FALSE
 
-GlobSame(e)        == e.glob = DigOf(S.global)
-GensSame(e)        == \A g \in Gens : e.gens[g] = DigOf(S.gens[g])
-GensSameBut(e, g0) == \A g \in Gens \ {g0} : e.gens[g] = DigOf(S.gens[g])
+GlobSame(e)        == e.glob = DigOf(GK(S.global))
+GensSame(e)        == \A g \in Gens : e.gens[g] = DigOf(NK(S.gens[g]))
+GensSameBut(e, g0) == \A g \in Gens \ {g0} : e.gens[g] = DigOf(NK(S.gens[g]))
 
 CallVerdict(e) ==
     LET a  == ArgOf(e)
@@ -73,7 +78,7 @@ CallVerdict(e) ==
         ELSE "ok"
     ELSE IF e.ev = "CallGen" THEN
         IF ~ResAgrees(r, e.res) THEN "TwinGeneratorsAgree"
-        ELSE IF ~Agrees(s2.gens[e.g], e.gens[e.g]) THEN "TwinGeneratorsEndState"
+        ELSE IF ~Agrees(NK(s2.gens[e.g]), e.gens[e.g]) THEN "TwinGeneratorsEndState"
         ELSE IF ~GensSameBut(e, e.g) THEN "GenCallTouchedOtherGenerator"
         ELSE "ok"
     ELSE \* CallNone
@@ -84,7 +89,7 @@ CallVerdict(e) ==
         ELSE
             IF ~ResAgrees(r, e.res) THEN "UnseededNotFunctionOfGlobal"
             ELSE IF ~GensSame(e) THEN "UnseededCallTouchedGenerator"
-            ELSE IF ~Agrees(s2.global, e.glob) THEN "UnseededEndStateNotReproducible"
+            ELSE IF ~Agrees(GK(s2.global), e.glob) THEN "UnseededEndStateNotReproducible"
             ELSE "ok"
 
 Verdict(e) ==
@@ -95,11 +100,11 @@ Verdict(e) ==
     ELSE IF e.ev = "Perturb" THEN
         IF GlobSame(e) THEN "PerturbIneffective"          \* harness sanity: drawing moves the global stream
         ELSE IF ~GensSame(e) THEN "PerturbTouchedGenerator"
-        ELSE IF ~Agrees(StepPerturb(S).global, e.glob) THEN "GlobalStreamNotReproducible"
+        ELSE IF ~Agrees(GK(StepPerturb(S).global), e.glob) THEN "GlobalStreamNotReproducible"
         ELSE "ok"
     ELSE IF e.ev = "Reseed" THEN
         IF ~GensSame(e) THEN "ReseedTouchedGenerator"
-        ELSE IF ~Agrees(Fresh(e.s), e.glob) THEN "ReseedNotReproducible"
+        ELSE IF ~Agrees(GK(Fresh(e.s)), e.glob) THEN "ReseedNotReproducible"
         ELSE "ok"
     ELSE CallVerdict(e)
 
@@ -110,18 +115,18 @@ Tolerant(e) == e.ev = "CallGen" \/ (e.ev = "CallNone" /\ ~Random[e.e])
 Accept(e) ==
     IF e.ev \in {"Perturb", "Reseed"} THEN
         /\ IF e.ev = "Perturb" THEN Perturb ELSE Reseed(e.s)          \* the design's own actions
-        /\ bind' = bind \cup {<<S'.global, e.glob>>}
+        /\ bind' = bind \cup {<<GK(S'.global), e.glob>>}
         /\ memo' = memo
     ELSE
         LET a  == ArgOf(e)
             s2 == After(S, e.e, a)
-            s3 == IF Tolerant(e) /\ ~Agrees(s2.global, e.glob) THEN Drift(s2) ELSE s2
+            s3 == IF Tolerant(e) /\ ~Agrees(GK(s2.global), e.glob) THEN Drift(s2) ELSE s2
         IN
         /\ S' = s3
         /\ calls' = calls \cup {CallRec(S, e.e, a)}
         /\ glog' = NextGlog(glog, S, e.e, a)
         /\ nops' = nops + 1
-        /\ bind' = bind \cup {<<s3.global, e.glob>>} \cup {<<s3.gens[g], e.gens[g]>> : g \in Gens}
+        /\ bind' = bind \cup {<<GK(s3.global), e.glob>>} \cup {<<NK(s3.gens[g]), e.gens[g]>> : g \in Gens}
         /\ memo' = memo \cup {<<Result(S, e.e, a), e.res>>}
 
 ResetVerdict(e) ==
@@ -146,7 +151,7 @@ TraceNext ==
              /\ S' = InitS /\ calls' = {} /\ glog' = [g \in Gens |-> <<>>] /\ nops' = 0
              /\ memo' = {}
              /\ IF v = "ok"
-                  THEN /\ bind' = {<<InitS.global, e.glob>>} \cup {<<InitS.gens[g], e.gens[g]>> : g \in Gens}
+                  THEN /\ bind' = {<<GK(InitS.global), e.glob>>} \cup {<<NK(InitS.gens[g]), e.gens[g]>> : g \in Gens}
                        /\ failed' = FALSE
                   ELSE /\ PrintT(<<"REJECT", IdOf(e), v>>)
                        /\ bind' = {} /\ failed' = TRUE
